@@ -474,15 +474,15 @@ def gen_history(rng):
         if rng.random() < 0.5 and fam == "am1_sh":
             a, b = "md_sh_h2co", "cis2_h2co"
         ops = [{"op": "run", "job": a, "id": "fa", "reuse": {"const": False, "dict": False, "driver": False}}, {"op": "run", "job": b, "id": "fb", "reuse": {"const": rng.random() < 0.5, "dict": True, "driver": False}}]
-    if rng.random() < 0.10:
+    if rng.random() < 0.14:
         # MD-driver stratum: two (or three) DIFFERENT runs on ONE MD / optimiser driver object - other molecule, other atom
         # count, other COM mode, caller-supplied velocities - each compared with the same run on new objects
         groups = {}
         for j, v in JOBS.items():
             if v["kind"] in ("md", "opt") and not v.get("expect_fail"):
                 groups.setdefault((v["fam"], v["kind"], v.get("eng")), []).append(j)
-        key = rng.choice(sorted(g for g, js in groups.items() if len(js) >= 2))
-        js = rng.sample(groups[key], min(len(groups[key]), rng.choice([2, 2, 3])))
+        key = rng.choice(sorted(groups, key=str))
+        js = [rng.choice(groups[key]) for _ in range(rng.choice([2, 2, 3]))]  # the same run twice on one driver is a case too
         ops = [{"op": "run", "job": j, "id": f"m{n_}", "reuse": {"const": n_ > 0 and rng.random() < 0.5, "dict": n_ > 0, "driver": n_ > 0}} for n_, j in enumerate(js)]
     if rng.random() < 0.05:
         # process-global caches of PM6 d-orbital terms: a PM6 job on d-shell elements after another one with other d
